@@ -64,9 +64,16 @@ func c05Check(s *sim, _ bool) vh.HistResult {
 	delivered := map[string]bool{} // file key -> delivered in an earlier step
 	agedOut := false               // the in-memory record may be gone (ageing / restart after >24 h)
 	advanced := false
+	// the clock period in which each version was delivered is part of the state: records
+	// logged at different times age differently
+	period := 0
+	at := map[string]int{}
 	for i, st := range s.steps {
 		switch st.Act.Op {
+		case "adv10s":
+			period++
 		case "adv25h":
+			period++
 			advanced = true
 		case "age", "restart":
 			if advanced {
@@ -101,6 +108,9 @@ func c05Check(s *sim, _ bool) vh.HistResult {
 				ff := s.files[k]
 				if arr == ff.target()+" "+ff.hash() {
 					delivered[k] = true
+					if _, ok := at[k]; !ok {
+						at[k] = period
+					}
 				}
 			}
 		}
@@ -130,7 +140,13 @@ func c05Check(s *sim, _ bool) vh.HistResult {
 		}
 	}
 	res.Outcome = fmt.Sprintf("delivered=%d", len(delivered))
-	res.Digest = s.digest(fmt.Sprint(advanced, agedOut))
+	when := ""
+	for _, k := range s.order {
+		if p, ok := at[k]; ok {
+			when += fmt.Sprintf("%s:%d ", k, period-p) // clock periods since the delivery
+		}
+	}
+	res.Digest = s.digest(fmt.Sprint(advanced, agedOut, when))
 	return res
 }
 
